@@ -361,6 +361,7 @@ type Frame struct {
 	edges  map[[2]int]*State             // state carried by edge (from,to)
 	rets   []retInfo
 	names  map[string][]nameBinding // source variable name -> bindings
+	renamed map[string]string       // contract name -> current name of a renamed local
 	old    *State
 	env0   map[string]Val // logical names of the contract (params, ghosts)
 	ord    []*ssa.BasicBlock
@@ -656,6 +657,77 @@ func (fr *Frame) collectNames() {
 			}
 		}
 	}
+	// renamed locals: the contract records the function's declared locals in
+	// source order ("locals a, b, c"); a recorded name that no longer exists is
+	// bound to the local now declared at the same position (only when the
+	// number of declarations is unchanged)
+	if fr.fc != nil && len(fr.fc.Locals) > 0 {
+		cur := declaredLocals(fr.fn)
+		if len(cur) == len(fr.fc.Locals) {
+			for i, old := range fr.fc.Locals {
+				if old != cur[i] && len(fr.names[old]) == 0 && len(fr.names[cur[i]]) > 0 {
+					fr.names[old] = fr.names[cur[i]]
+					if fr.renamed == nil {
+						fr.renamed = map[string]string{}
+					}
+					fr.renamed[old] = cur[i]
+				}
+			}
+		}
+	}
+}
+
+// declaredLocals lists the local variables a function declares (:=, var, range
+// and type-switch bindings; blank identifiers skipped), in source order,
+// including those of nested function literals.
+func declaredLocals(fn *ssa.Function) []string {
+	var body *ast.BlockStmt
+	switch d := fn.Syntax().(type) {
+	case *ast.FuncDecl:
+		body = d.Body
+	case *ast.FuncLit:
+		body = d.Body
+	}
+	if body == nil {
+		return nil
+	}
+	var out []string
+	addIdent := func(e ast.Expr) {
+		if id, ok := e.(*ast.Ident); ok && id.Name != "_" {
+			out = append(out, id.Name)
+		}
+	}
+	ast.Inspect(body, func(n ast.Node) bool {
+		switch x := n.(type) {
+		case *ast.AssignStmt:
+			if x.Tok == token.DEFINE {
+				for _, l := range x.Lhs {
+					addIdent(l)
+				}
+			}
+		case *ast.RangeStmt:
+			if x.Tok == token.DEFINE {
+				if x.Key != nil {
+					addIdent(x.Key)
+				}
+				if x.Value != nil {
+					addIdent(x.Value)
+				}
+			}
+		case *ast.GenDecl:
+			if x.Tok == token.VAR {
+				for _, sp := range x.Specs {
+					if vs, ok := sp.(*ast.ValueSpec); ok {
+						for _, nm := range vs.Names {
+							addIdent(nm)
+						}
+					}
+				}
+			}
+		}
+		return true
+	})
+	return out
 }
 
 // ------------------------------------------------------------------
